@@ -16,8 +16,7 @@ Three independent parts, each mirroring one source file:
   focal grid of every level (`make_focal_grid`), and the padding of the Tukey window to the
   grid shape (`np.pad(w, (shape - w.shape) // 2)` followed by a broadcasting multiplication).
 
-Vectors are functions `Fin n → K`, materialised through `memo` so that the compiled driver does
-not recompute closures.  The scalar `K` is abstract (plain notation classes): the driver runs at
+Vectors are `Vector K n` (arrays of fixed length).  The scalar `K` is abstract (plain notation classes): the driver runs at
 `Rat` and at the Gaussian rationals `CRat`; the theorems are proved over ordered fields / rings.
 -/
 namespace HcipyVerif.Coronagraph
@@ -38,26 +37,20 @@ def coeffsLen (order : Nat) : Nat := order * (order + 2) / 8
 
 /-! ## 2. Vectors -/
 
-abbrev Vec (K : Type) (n : Nat) := Fin n → K
-
-/-- Identity on vectors (see `memo_eq`); forces the samples into an array at run time. -/
-def memo {K : Type} {n : Nat} (f : Vec K n) : Vec K n :=
-  let v := Vector.ofFn f
-  fun i => v[i]
-
-theorem memo_eq {K : Type} {n : Nat} (f : Vec K n) : memo f = f := by
-  funext i; simp [memo]
+/-- Vectors are arrays of a fixed length (strict data: the compiled driver never re-evaluates a
+sample). -/
+abbrev Vec (K : Type) (n : Nat) := Vector K n
 
 section Scalar
 variable {K : Type} [Add K] [Sub K] [Mul K] [Div K] [OfNat K 0] [OfNat K 1] [Pow K Nat]
 
 /-- Unweighted bilinear form `Σ u_i v_i` (the code's QR / matrix products use no grid weights). -/
-def dot {n : Nat} (u v : Vec K n) : K := Fin.foldl n (fun acc i => acc + u i * v i) 0
+def dot {n : Nat} (u v : Vec K n) : K := Fin.foldl n (fun acc i => acc + u[i] * v[i]) 0
 
 /-- Remove from `x` its component along `u` (identity when `u = 0`, as `0/0 = 0`). -/
 def step {n : Nat} (u x : Vec K n) : Vec K n :=
   let c := dot u x / dot u u
-  memo fun i => x i - c * u i
+  Vector.ofFn fun i => x[i] - c * u[i]
 
 /-- Remove the components along every vector of the list, in order. -/
 def residual {n : Nat} : List (Vec K n) → Vec K n → Vec K n
@@ -77,7 +70,7 @@ def perfect {n : Nat} (modes : List (Vec K n)) (x : Vec K n) : Vec K n := residu
 
 /-- `aperture * x**j * y**k`. -/
 def mode {n : Nat} (a x y : Vec K n) (e : Nat × Nat) : Vec K n :=
-  memo fun i => a i * x i ^ e.1 * y i ^ e.2
+  Vector.ofFn fun i => a[i] * x[i] ^ e.1 * y[i] ^ e.2
 
 def modes {n : Nat} (a x y : Vec K n) (order : Nat) : List (Vec K n) :=
   (modeExps order).map (mode a x y)
@@ -92,26 +85,27 @@ def power {n : Nat} (E : Vec K n) : K := dot E E
 
 /-! ## 3. Lyot coronagraphs -/
 
-/-- Matrix–vector product; `M k` is row `k`. -/
-def matVec {m n : Nat} (M : Fin m → Vec K n) (v : Vec K n) : Vec K m := memo fun k => dot (M k) v
+/-- Matrix–vector product; `M[k]` is row `k`. -/
+def matVec {m n : Nat} (M : Vector (Vec K n) m) (v : Vec K n) : Vec K m :=
+  Vector.ofFn fun k => dot M[k] v
 
 /-- `LyotCoronagraph.forward`: `wf_foc = F E; wf_foc -= m * wf_foc; lyot = B wf_foc;
 lyot = E - lyot; lyot *= stop` (no stop: `none`). -/
-def lyotForward {m n : Nat} (F : Fin m → Vec K n) (B : Fin n → Vec K m) (mask : Vec K m)
+def lyotForward {m n : Nat} (F : Vector (Vec K n) m) (B : Vector (Vec K m) n) (mask : Vec K m)
     (stop : Option (Vec K n)) (E : Vec K n) : Vec K n :=
   let foc := matVec F E
-  let foc' : Vec K m := memo fun k => foc k - foc k * mask k
+  let foc' : Vec K m := Vector.ofFn fun k => foc[k] - foc[k] * mask[k]
   let ly := matVec B foc'
-  let out : Vec K n := memo fun i => E i - ly i
+  let out : Vec K n := Vector.ofFn fun i => E[i] - ly[i]
   match stop with
   | none => out
-  | some s => memo fun i => out i * s i
+  | some s => Vector.ofFn fun i => out[i] * s[i]
 
 /-- `OccultedLyotCoronagraph.forward`: `B (m * (F E))`. -/
-def occultedForward {m n : Nat} (F : Fin m → Vec K n) (B : Fin n → Vec K m) (mask : Vec K m)
+def occultedForward {m n : Nat} (F : Vector (Vec K n) m) (B : Vector (Vec K m) n) (mask : Vec K m)
     (E : Vec K n) : Vec K n :=
   let foc := matVec F E
-  matVec B (memo fun k => foc k * mask k)
+  matVec B (Vector.ofFn fun k => foc[k] * mask[k])
 
 end Scalar
 
